@@ -168,14 +168,18 @@ func diffEvents(got, want event, ignore map[string]bool) []string {
 
 const poisonByte = 0xDB
 
-// poisonIn reports the keys whose value shows released-buffer contents: for Forward events any 0xDB byte (no input
-// holds one); for Datadog JSON (invalid bytes become U+FFFD) a run of four or more U+FFFD, which no generated input
+// scrambleByte overwrites the transient input slice after Parse returned (stage 1), as the listener's buffer is
+// overwritten by the next read; no generated input holds it either
+const scrambleByte = 0xEE
+
+// poisonIn reports the keys whose value shows released-buffer contents (or the overwritten transient input): for
+// Forward events any 0xDB / 0xEE byte (no input holds one); for Datadog JSON (invalid bytes become U+FFFD) a run of four or more U+FFFD, which no generated input
 // produces (at most two invalid bytes in a row).
 func poisonIn(kind string, e event) []string {
 	var ks []string
 	for k, v := range e {
 		if kind == "fluentd" {
-			if strings.IndexByte(v, poisonByte) >= 0 {
+			if strings.IndexByte(v, poisonByte) >= 0 || strings.IndexByte(v, scrambleByte) >= 0 {
 				ks = append(ks, k)
 			}
 		} else if strings.Contains(v, "\uFFFD\uFFFD\uFFFD\uFFFD") {
@@ -189,7 +193,7 @@ func poisonIn(kind string, e event) []string {
 // rawMayHoldPoison is the cheap pre-check before decoding.
 func rawMayHoldPoison(kind string, b []byte) bool {
 	if kind == "fluentd" {
-		return bytes.IndexByte(b, poisonByte) >= 0
+		return bytes.IndexByte(b, poisonByte) >= 0 || bytes.IndexByte(b, scrambleByte) >= 0
 	}
 	// encoding/json writes an invalid byte as the six characters \ufffd
 	return bytes.Contains(b, []byte(`\ufffd\ufffd\ufffd\ufffd`)) || bytes.Contains(b, []byte("\uFFFD\uFFFD\uFFFD\uFFFD"))
